@@ -47,7 +47,8 @@ func (c *Connect) Pack(w io.Writer) error {
 
 	bufw := getBuffer()
 	defer putBuffer(bufw)
-	bufw.Write([]byte{0x00, 0x04})
+	// the protocol name is "MQTT" for v3.1.1 and v5 but "MQIsdp" for v3.1
+	bufw.Write([]byte{0x00, byte(len(c.ProtocolName))})
 	bufw.Write(c.ProtocolName)
 	bufw.WriteByte(c.ProtocolLevel)
 	// write flag
@@ -168,6 +169,9 @@ func (c *Connect) Unpack(r io.Reader) (err error) {
 	c.WillFlag = (1 & (connectFlags >> 2)) > 0
 	c.WillQos = 3 & (connectFlags >> 3)
 	if !c.WillFlag && c.WillQos != 0 { //[MQTT-3.1.2-11]
+		return codes.ErrMalformed
+	}
+	if c.WillQos > Qos2 { //[MQTT-3.1.2-12]
 		return codes.ErrMalformed
 	}
 	c.WillRetain = (1 & (connectFlags >> 5)) > 0
